@@ -271,3 +271,52 @@ func sampleOfType(t *rapid.T, ty cty.Type, orig cty.Value, vo ValOpts) cty.Value
 }
 
 var _ = big.NewFloat
+
+// DrawPoolRefinement abstracts v as an unknown whose refinements use bounds from a small
+// pool of numbers, so that bounds of different values (and literals) coincide often -
+// the region in which refinement merging (conditionals, comparisons) must get
+// inclusivity and ordering exactly right.
+func DrawPoolRefinement(t *rapid.T, v cty.Value, pool []cty.Value) *AbsNode {
+	n := &AbsNode{Orig: v, Kind: AbsRefined}
+	ty := v.Type()
+	if v.IsNull() || rapid.IntRange(0, 5).Draw(t, "typed_only") == 0 {
+		n.Kind = AbsTyped
+		return n
+	}
+	n.NotNull = rapid.IntRange(0, 3).Draw(t, "notnull") > 0
+	switch {
+	case ty == cty.Number:
+		var los, his []cty.Value
+		for _, p := range pool {
+			if p.LessThanOrEqualTo(v).True() {
+				los = append(los, p)
+			}
+			if p.GreaterThanOrEqualTo(v).True() {
+				his = append(his, p)
+			}
+		}
+		if len(los) > 0 && rapid.IntRange(0, 3).Draw(t, "haslo") > 0 {
+			n.HasLo, n.NotNull = true, true
+			n.Lo = rapid.SampledFrom(los).Draw(t, "lo")
+			n.LoInc = n.Lo.Equals(v).True() || rapid.Bool().Draw(t, "loinc")
+		}
+		if len(his) > 0 && rapid.IntRange(0, 3).Draw(t, "hashi") > 0 {
+			n.HasHi, n.NotNull = true, true
+			n.Hi = rapid.SampledFrom(his).Draw(t, "hi")
+			n.HiInc = n.Hi.Equals(v).True() || rapid.Bool().Draw(t, "hiinc")
+		}
+	case ty == cty.String:
+		s := []rune(v.AsString())
+		k := rapid.IntRange(0, len(s)).Draw(t, "prefixlen")
+		n.Prefix = string(s[:k])
+		if n.Prefix != "" {
+			n.NotNull = true
+		}
+	case ty.IsListType() || ty.IsMapType() || ty.IsSetType():
+		l := v.LengthInt()
+		n.LenLo = rapid.IntRange(0, l).Draw(t, "lenlo")
+		n.LenHi = l + rapid.IntRange(0, 2).Draw(t, "dlenhi")
+		n.NotNull = true
+	}
+	return n
+}
